@@ -65,6 +65,7 @@ func init() {
 	stdModels["(*sync.WaitGroup).Wait"] = func(fr *Frame, fn *ssa.Function, args []Value, pc *Term, st *State, pos token.Pos, resT types.Type) callResult {
 		used(fr, "sync.WaitGroup.Wait")
 		fr.ex.eventPtr(st, "wg.wait", args[0], pc)
+		fr.ex.waitHolding(st, args[0], pc, pos)
 		return callResult{val: TupleV{}, st: st}
 	}
 	stdModels["(*sync.Once).Do"] = func(fr *Frame, fn *ssa.Function, args []Value, pc *Term, st *State, pos token.Pos, resT types.Type) callResult {
@@ -299,6 +300,7 @@ func init() {
 	// ---- io
 	stdModels["io.ReadFull"] = func(fr *Frame, fn *ssa.Function, args []Value, pc *Term, st *State, pos token.Pos, resT types.Type) callResult {
 		used(fr, "io.ReadFull (err == nil <=> n == len(buf))")
+		fr.ex.readerDiscipline(args[0], pos, pc)
 		return fr.modelRead(args[1], pc, st, true)
 	}
 	stdModels["bytes.Equal"] = func(fr *Frame, fn *ssa.Function, args []Value, pc *Term, st *State, pos token.Pos, resT types.Type) callResult {
